@@ -137,6 +137,71 @@ func ipow(b, e int) int {
 	return r
 }
 
+// recvKindsFor: the previous states of the receiver a round-trip case is decoded into.
+// "fresh" always; "used" (a 2x2 / 2-vector) for plain files and JSON (quick: objects of at
+// most 4 elements); the other states (smaller, larger, same shape with junk, view) for
+// plain files and JSON: quick for the lattice value 1 and objects of at most 4 elements,
+// thorough for objects of at most 4 elements with every value and larger ones with the
+// value 1 (the receiver's previous state interacts with the shape, not the values).
+func recvKindsFor(tier, codec string, vi, size int) []string {
+	k := []string{"fresh"}
+	if codec == "gztable" {
+		return k
+	}
+	thorough := tier == "thorough"
+	if thorough || size <= 4 {
+		k = append(k, "used")
+	}
+	if (thorough && (size <= 4 || vi == 1)) || (size <= 4 && vi == 1) {
+		k = append(k, extraRecvKinds...)
+	}
+	return k
+}
+
+// batterySelected: after which round trips the use battery is run. What the battery can
+// expose - scratch buffers, index structures, stale state of the receiver - depends on
+// shape, zero pattern, storage family, codec and receiver state, not on the element value.
+// quick: the lattice value 1; objects of more than 4 elements with the full, single-entry,
+// diagonal and all-zero patterns only. thorough: every value for objects of at most 4
+// elements; larger objects with every zero pattern for the value 1 and with the four
+// patterns for the other values.
+func batterySelected(tier string, cs *Case) bool {
+	n := len(cs.Pat)
+	if tier == "thorough" && (n <= 4 || cs.Val == 1) {
+		return true
+	}
+	if cs.Val != 1 && tier != "thorough" {
+		return false
+	}
+	if n <= 4 {
+		return true
+	}
+	pi := 0
+	for i, p := range cs.Pat {
+		if p != 0 {
+			pi |= 1 << i
+		}
+	}
+	np := 1 << n
+	return pi == np-1 || pi == 1 || pi == 0 || pi == 0x111&(np-1)
+}
+
+func recvRank(rv string) int64 {
+	switch rv {
+	case "fresh":
+		return 0
+	case "used":
+		return 1
+	case "smaller":
+		return 2
+	case "larger":
+		return 3
+	case "same":
+		return 4
+	}
+	return 5
+}
+
 /* vector round trips
  * -------------------------------------------------------------------------- */
 
@@ -170,13 +235,10 @@ func regVectorRT() {
 								for i := range pat {
 									pat[i] = alpha[pat[i]]
 								}
-								for _, rv := range []string{"fresh", "used"} {
+								for _, rv := range recvKindsFor(tier, codec, vi, n) {
 									rv := rv
-									if codec == "gztable" && rv == "used" {
-										continue
-									}
 									emit(func() *Case {
-										return &Case{Type: ct.Name, Codec: codec, Val: vi, ValName: lat[vi].Name, Dims: []int{n}, Pat: pat, Recv: rv, Rank: int64(n*1000 + vi)}
+										return &Case{Type: ct.Name, Codec: codec, Val: vi, ValName: lat[vi].Name, Dims: []int{n}, Pat: pat, Recv: rv, Rank: int64(n*1000+vi)*10 + recvRank(rv)}
 									})
 								}
 							}
@@ -197,14 +259,46 @@ func runVectorRT(x *X, cs *Case) {
 		x.c.Outcome("vector-rt:cannot build object (" + pc + ")")
 		return
 	}
+	var refTrace trace
+	full := x.thorough()
 	rtContainer(x, cs, ct, valClass(ct.St.Kind, v), patClass(ct, v, cs.Pat), obj, func(rd *contT, dec any) (string, string) {
 		derivs := cs.Codec == "json" && !ct.Sparse && ct.St.Real
 		return compareVectors(rd.St, obj, dec.(ad.ConstVector), derivs)
+	}, func(rd *contT, dec any) (string, string, string) {
+		d, ok := dec.(ad.Vector)
+		if !ok {
+			return "", "", ""
+		}
+		re := func(v ad.Vector) ad.Vector { return redecode(x, rd, cs.Codec, v).(ad.Vector) }
+		mk := func() trace { return useVector(rd, buildVector(rd, v, cs.Pat).(ad.Vector), full, re) }
+		if refTrace == nil {
+			refTrace = mk()
+		}
+		return useVerdict(x, refTrace, useVector(rd, d, full, re), useTol(rd.St.Kind), mk)
 	})
 }
 
+// redecode: a further round trip of obj through the codec of the case into a fresh
+// receiver (panics if the encoder or the decoder fails: recorded by the battery step).
+func redecode(x *X, rd *contT, codec string, obj any) any {
+	enc, err, pc := encodeObj(x, obj, codec)
+	if pc != "" {
+		panic("encode: " + pc)
+	}
+	if err != nil {
+		panic("encode: error")
+	}
+	recv := newReceiver(rd, likeOf(rd), "fresh", nil)
+	if err, pc := decodeInto(x, recv, codec, enc, "method"); pc != "" {
+		panic("decode: " + pc)
+	} else if err != nil {
+		panic("decode: error")
+	}
+	return derefReceiver(recv)
+}
+
 // rtContainer: encode obj, decode into the reader's receiver(s), compare.
-func rtContainer(x *X, cs *Case, ct *contT, vc, pcl string, obj any, cmp func(rd *contT, dec any) (string, string)) {
+func rtContainer(x *X, cs *Case, ct *contT, vc, pcl string, obj any, cmp func(rd *contT, dec any) (string, string), use func(rd *contT, dec any) (string, string, string)) {
 	kpre := cs.Codec + "|" + ct.fam() + "|"
 	kp := kpre + aspectFor("encode", vc, "", pcl) + "|"
 	enc, err, pc := encodeObj(x, obj, cs.Codec)
@@ -224,7 +318,7 @@ func rtContainer(x *X, cs *Case, ct *contT, vc, pcl string, obj any, cmp func(rd
 		vias = append(vias, "json.Unmarshal")
 	}
 	for _, via := range vias {
-		recv := newReceiver(rd, likeOf(rd), cs.Recv == "used")
+		recv := newReceiver(rd, likeOf(rd), cs.Recv, cs.Dims)
 		err, pc := decodeInto(x, recv, cs.Codec, enc, via)
 		k := kp
 		if pc != "" {
@@ -250,6 +344,14 @@ func rtContainer(x *X, cs *Case, ct *contT, vc, pcl string, obj any, cmp func(rd
 			continue
 		}
 		x.c.Outcome(cs.Block + ":equal:" + cs.Codec)
+		if use != nil && batterySelected(x.tier, cs) {
+			if step, ucls, detail := use(rd, derefReceiver(recv)); ucls != "" {
+				x.violate(kpre+"any value|receiver="+cs.Recv+"|use of the restored object: "+step+" → "+ucls,
+					fmt.Sprintf("%s → %s → %s (%s receiver, %s): the restored object reads equal to the original but does not behave like it in step `%s' of the use battery: %s", ct.Name, show(enc), rd.Name, cs.Recv, via, step, detail), cs)
+				continue
+			}
+			x.c.Outcome(cs.Block + ":behaves like the original:" + cs.Codec)
+		}
 	}
 	if cs.Val == 1 && cs.Recv == "fresh" && len(cs.Pat) >= 3 && cs.Pat[0] != 0 {
 		x.c.Sample(map[string]any{"type": ct.Name, "codec": cs.Codec, "pattern": cs.Pat, "dims": cs.Dims, "ops": cs.Ops, "encoding": show(enc)})
@@ -317,14 +419,11 @@ func regMatrixRT() {
 										if fill == 3 && pi == 0 {
 											continue
 										}
-										for _, rv := range []string{"fresh", "used"} {
+										for _, rv := range recvKindsFor(tier, codec, vi, r*c) {
 											rv := rv
-											if rv == "used" && (codec == "gztable" || (!thorough && r*c > 4)) {
-												continue
-											}
 											r, c := r, c
 											emit(func() *Case {
-												return &Case{Type: ct.Name, Codec: codec, Val: vi, ValName: lat[vi].Name, Dims: []int{r, c}, Pat: pat, Recv: rv, Rank: int64(r*c*1000 + vi)}
+												return &Case{Type: ct.Name, Codec: codec, Val: vi, ValName: lat[vi].Name, Dims: []int{r, c}, Pat: pat, Recv: rv, Rank: int64(r*c*1000+vi)*10 + recvRank(rv)}
 											})
 										}
 									}
@@ -347,10 +446,26 @@ func runMatrixRT(x *X, cs *Case) {
 		x.c.Outcome("matrix-rt:cannot build object (" + pc + ")")
 		return
 	}
+	var refTrace trace
+	full := x.thorough()
 	rtContainer(x, cs, ct, valClass(ct.St.Kind, v), patClass(ct, v, cs.Pat), obj, func(rd *contT, dec any) (string, string) {
 		derivs := cs.Codec == "json" && !ct.Sparse && ct.St.Real
 		lenient := cs.Codec != "json" && !ct.Sparse
 		return compareMatrices(rd.St, obj, dec.(ad.ConstMatrix), derivs, lenient, readFull)
+	}, func(rd *contT, dec any) (string, string, string) {
+		d, ok := dec.(ad.Matrix)
+		if !ok {
+			return "", "", ""
+		}
+		if r, c := d.Dims(); r != cs.Dims[0] || c != cs.Dims[1] {
+			return "", "", "" // headerless dense table: an empty matrix comes back without its dims
+		}
+		re := func(m ad.Matrix) ad.Matrix { return redecode(x, rd, cs.Codec, m).(ad.Matrix) }
+		mk := func() trace { return useMatrix(rd, buildMatrix(rd, v, cs.Dims[0], cs.Dims[1], cs.Pat), full, re) }
+		if refTrace == nil {
+			refTrace = mk()
+		}
+		return useVerdict(x, refTrace, useMatrix(rd, d, full, re), useTol(rd.St.Kind), mk)
 	})
 }
 
@@ -543,7 +658,7 @@ func runMatrixView(x *X, cs *Case) {
 		return
 	}
 	x.c.Outcome("matrix-view:same-encoding:" + cs.Codec)
-	recv := newReceiver(ct, likeOf(ct), false)
+	recv := newReceiver(ct, likeOf(ct), "fresh", nil)
 	if err, pc := decodeInto(x, recv, cs.Codec, encV, "method"); pc != "" || err != nil {
 		x.violate(kp+"decode → "+map[bool]string{true: "panic:" + pc, false: "error"}[pc != ""], fmt.Sprintf("reader fails on the encoding of a view %s: %v %s", show(encV), err, pc), cs)
 		return
@@ -554,6 +669,16 @@ func runMatrixView(x *X, cs *Case) {
 		return
 	}
 	x.c.Outcome("matrix-view:equal:" + cs.Codec)
+	if d, ok := derefReceiver(recv).(ad.Matrix); ok && (len(cs.Ops) == 1 || (x.thorough() && len(cs.Ops) == 2)) {
+		if r, c := d.Dims(); r == rd.rows && c == rd.cols {
+			re := func(m ad.Matrix) ad.Matrix { return redecode(x, ct, cs.Codec, m).(ad.Matrix) }
+			if step, ucls, detail := useVerdict(x, useMatrix(ct, cp, x.thorough(), re), useMatrix(ct, d, x.thorough(), re), useTol(ct.St.Kind), nil); ucls != "" {
+				x.violate(kp+"use of the restored object: "+step+" → "+ucls, fmt.Sprintf("%s view %v → %s: the restored object does not behave like a directly built copy of the view in step `%s': %s", ct.Name, cs.Ops, show(encV), step, detail), cs)
+				return
+			}
+			x.c.Outcome("matrix-view:behaves like the original:" + cs.Codec)
+		}
+	}
 	if len(cs.Ops) == 2 && cs.Ops[0].T && cs.Base == 0 {
 		x.c.Sample(map[string]any{"type": ct.Name, "codec": cs.Codec, "ops": cs.Ops, "encoding": show(encV)})
 	}
@@ -683,7 +808,7 @@ func runVectorView(x *X, cs *Case) {
 		x.violate(kp+"encoding of the view differs from encoding of its deep copy", fmt.Sprintf("%s slice %v: %s vs deep copy %s", ct.Name, cs.Ops, show(encV), show(encC)), cs)
 		return
 	}
-	recv := newReceiver(ct, likeOf(ct), false)
+	recv := newReceiver(ct, likeOf(ct), "fresh", nil)
 	if err, pc := decodeInto(x, recv, cs.Codec, encV, "method"); pc != "" || err != nil {
 		x.violate(kp+"decode → "+map[bool]string{true: "panic:" + pc, false: "error"}[pc != ""], fmt.Sprintf("reader fails on the encoding of a slice %s: %v %s", show(encV), err, pc), cs)
 		return
@@ -694,4 +819,12 @@ func runVectorView(x *X, cs *Case) {
 		return
 	}
 	x.c.Outcome("vector-view:equal:" + cs.Codec)
+	if d, ok := derefReceiver(recv).(ad.Vector); ok && (len(cs.Ops) == 1 || (x.thorough() && len(cs.Ops) == 2)) {
+		re := func(v ad.Vector) ad.Vector { return redecode(x, ct, cs.Codec, v).(ad.Vector) }
+		if step, ucls, detail := useVerdict(x, useVector(ct, cp, x.thorough(), re), useVector(ct, d, x.thorough(), re), useTol(ct.St.Kind), nil); ucls != "" {
+			x.violate(kp+"use of the restored object: "+step+" → "+ucls, fmt.Sprintf("%s slice %v → %s: the restored object does not behave like a directly built copy of the slice in step `%s': %s", ct.Name, cs.Ops, show(encV), step, detail), cs)
+			return
+		}
+		x.c.Outcome("vector-view:behaves like the original:" + cs.Codec)
+	}
 }
